@@ -19,7 +19,7 @@ RULE = ("generated failure programs: an item stream with a failure at position p
         "and real popen/socket/via workers. distinct = distinct (program, schedule) cases")
 ASSUMPTIONS = ["KeyboardInterrupt in remote bodies is outside this property (C11/C14 territory)"]
 MINIMUM = {"programs": 300, "remoteerrors_checked": 250, "sibling_roundtrips": 500, "sweep_fired": 40}
-SHARD_TIMEOUT = {"quick": 200, "thorough": 2400}
+SHARD_TIMEOUT = {"quick": 150, "thorough": 2400}
 
 EXCS = [
     ("ValueError", "ValueError('bad value 17')", "bad value 17"),
